@@ -479,7 +479,19 @@ type httpResult struct {
 
 // httpDo serves one request with the real mux from the calling task.
 func (w *confWorld) httpDo(method, path string, hdr map[string]string, body string) (res httpResult) {
-	req := httptest.NewRequest(method, "http://galene.example"+path, strings.NewReader(body))
+	var req *http.Request
+	func() {
+		defer func() {
+			if recover() != nil {
+				req = nil // not expressible as an HTTP request line: the harness skips it
+			}
+		}()
+		req = httptest.NewRequest(method, "http://galene.example"+path, strings.NewReader(body))
+	}()
+	if req == nil {
+		res.Status = -1
+		return
+	}
 	req.RemoteAddr = "10.9.0.1:5555"
 	for k, v := range hdr {
 		req.Header.Set(k, v)
